@@ -1,6 +1,6 @@
 #!/bin/bash
 # tools/import_seed.sh <Cxx> <n> : confirm and copy /tmp/seed/Cxx/seed/n into /verif/seeded/Cxx-sn/
-P=$1; N=$2; W=/tmp/seed/$P; TAG=s; [ -d $W/seed_r1 ] && TAG=r2s; [ -d $W/seed_r2 ] && TAG=r3s; [ -d $W/seed_r3 ] && TAG=r4s; [ -d $W/seed_r4 ] && TAG=r5s; D=/verif/seeded/$P-$TAG$N
+P=$1; N=$2; W=/tmp/seed/$P; TAG=s; [ -d $W/seed_r1 ] && TAG=r2s; [ -d $W/seed_r2 ] && TAG=r3s; [ -d $W/seed_r3 ] && TAG=r4s; [ -d $W/seed_r4 ] && TAG=r5s; TAG=${SEEDTAG:-$TAG}; D=/verif/seeded/$P-$TAG$N
 OUT=$(/verif/tools/confirm_seed.sh $W $N 2>&1 | tail -2)
 echo "$OUT"
 if echo "$OUT" | grep -q "^CONFIRMED"; then
